@@ -352,8 +352,63 @@ def check(chk: Check) -> None:
         else:
             chk.ok(R3, q, fi.where, 'every returned / stored value is plain, a child value, a scoped-names callable result or a program lambda')
 
+    # --------------------------------------------------------------------- R5
+    R5 = chk.rule('C02.R5', 'values a program can hold stay inert under every language operation: no table entry is a '
+                            'subscriptable type object (the language subscripts any value), and program-supplied callbacks '
+                            'are only ever called with plain arguments', floor=40)
+    GENERIC_TYPES = {'dict', 'list', 'tuple', 'set', 'frozenset', 'type'}
+    for key in sorted(tab):
+        ent = tab[key]
+        where = '%s:%d' % (F.modules[functab.FUNCS_MOD].rel, ent.line)
+        if ent.kind == 'builtin':
+            import builtins as _b
+            obj = getattr(_b, ent.target, None)
+            if isinstance(obj, type) and ent.target in GENERIC_TYPES:
+                chk.bad(R5, ent.label + ' is the type object ' + ent.target, where,
+                        'the table binds the class %s itself; the language can subscript any value it holds '
+                        '(`%s["x"]` lowers to container[key]), and subscripting this class yields a types.GenericAlias - '
+                        'not plain data' % (ent.target, key))
+            else:
+                chk.ok(R5, ent.label, where, 'raw %s %s is not subscriptable' % ('class' if isinstance(obj, type) else 'function', ent.target))
+            continue
+        fi = ent.funcinfo(F)
+        if fi is None:
+            chk.ok(R5, ent.label, where, '%s %s' % (ent.kind, ent.target))
+            continue
+        problems = []
+        ks = Kinds(F, set())
+        for p in SymExec(F, fi).run():
+            for e in p.events:
+                if e.kind != 'call':
+                    continue
+                f = freeze(e.func)
+                # a program value used as a callback by a library function that passes it non-plain objects
+                if isinstance(f, tuple) and f[:2] == ('ref', 'ext') and f[2] in ('regex.sub', 'regex.subn', 're.sub', 're.subn'):
+                    kw = dict(freeze(e.kwargs))
+                    repl = kw.get('repl', freeze(e.args)[1] if len(e.args) > 1 else None)
+                    if repl is not None and not _is_text(repl):
+                        problems.append('`%s`: the replacement `%s` comes from the program and may be a lambda; %s calls it with a '
+                                        'regex Match object, which the lambda can store or return' % (e.text(), show(repl), f[2]))
+                if isinstance(f, tuple) and f and f[0] == 'param':
+                    for a in freeze(e.args):
+                        kk = ks.kind(a)
+                        if kk not in P_KINDS:
+                            problems.append('`%s` calls the program-supplied function with a %s' % (e.text(), kk))
+        chk.require(not problems, R5, ent.label, where, '; '.join(sorted(set(problems))) or 'callbacks receive plain values only')
+
     # --------------------------------------------------------------------- R4
     _r4(chk, R4)
+
+
+def _is_text(t) -> bool:
+    t = freeze(t)
+    if is_const(t):
+        return isinstance(t[1], str)
+    if isinstance(t, tuple) and t[:1] == ('call',) and t[2] == ('ref', 'builtin', 'str'):
+        return True
+    if isinstance(t, tuple) and t[:1] == ('fstr',):
+        return True
+    return False
 
 
 def entry_units(chk: Check) -> List[Tuple[str, FuncInfo, Any]]:
